@@ -472,13 +472,15 @@ func (ms *Modules) Process() []error {
 	// rather we can just walk all modules and submodules *after* entries
 	// are resolved. This means we do not need to concern ourselves that
 	// an entry does not exist.
-	dvP := map[string]bool{} // cache the modules we've handled since we have both modname and modname@revision-date
+	// A module is filed under modname and modname@revision-date: remember
+	// the ones that are done -- the modules, not their names, since several
+	// revisions of one name are several modules with deviations of their own.
+	dvP := map[*Module]bool{}
 	for _, devmods := range []map[string]*Module{ms.Modules, ms.SubModules} {
 		for _, m := range devmods {
-			e := ToEntry(m)
-			if !dvP[e.Name] {
-				errs = append(errs, e.ApplyDeviate(ms.ParseOptions.DeviateOptions)...)
-				dvP[e.Name] = true
+			if !dvP[m] {
+				errs = append(errs, ToEntry(m).ApplyDeviate(ms.ParseOptions.DeviateOptions)...)
+				dvP[m] = true
 			}
 		}
 	}
